@@ -699,7 +699,9 @@ func (f stubFetcher) Head(context.Context, name.Reference, ...string) (*conregv1
 	}
 	return &conregv1.Descriptor{Digest: h}, nil
 }
-func (f stubFetcher) Tags(context.Context, name.Reference, ...string) ([]string, error) { return nil, nil }
+func (f stubFetcher) Tags(context.Context, name.Reference, ...string) ([]string, error) {
+	return nil, nil
+}
 
 // runManagerCreated: the revision is created by the REAL package manager reconciler (not by the
 // harness) for packages whose names are short, dotted, or 64-100 characters long, and then
@@ -713,8 +715,8 @@ func runManagerCreated(c *kit.Ctx, i int) {
 	r := c.Rng("manager-created", i)
 	pkg := []string{
 		"pk",
-		"configuration-of-the-platform-team-for-all-regions-and-all-environments-eu",             // 74 characters
-		"platform.configurations.acme-corporation.example.org",                                   // dotted
+		"configuration-of-the-platform-team-for-all-regions-and-all-environments-eu",                            // 74 characters
+		"platform.configurations.acme-corporation.example.org",                                                  // dotted
 		"a-configuration-package-with-a-really-long-name-that-still-is-a-valid-dns-subdomain-of-100-characters", // 100
 	}[i%4]
 	x := newExec(c, name, map[string]any{"package": pkg}, "Configuration", uint64(c.Seed)*313+uint64(i), 2, pkg)
